@@ -22,12 +22,11 @@ func NewPreviewReader(l zerolog.Logger) previewReader {
 
 func (pr *previewReader) RenderPreview(r io.Reader, h meta.PreviewHeader) error {
 	// The size comes from the file. Grow the image as data arrives instead of
-	// allocating whatever the header declares (up to 4 GiB) before reading.
+	// allocating what the header declares before reading: a header may declare
+	// up to 4 GiB, and a file may hold any number of preview boxes that each
+	// declare more than they hold.
 	const maxSize = 2048
 	var img []byte
-	if h.Size <= 64*maxSize {
-		img = make([]byte, 0, h.Size)
-	}
 	buf := make([]byte, maxSize)
 	for uint32(len(img)) < h.Size {
 		n := h.Size - uint32(len(img))
